@@ -653,6 +653,8 @@ func LooseFingerprint(b *biscuit.Biscuit) string {
 // Fingerprint is everything observable about a token without evaluating Datalog.
 func Fingerprint(b *biscuit.Biscuit) string {
 	var sb strings.Builder
+	// what the observers below might themselves change is read first, and again at the end
+	fmt.Fprintf(&sb, "--before-- count %d rootid %s ctx %q\n", b.BlockCount(), rootIDStr(b.RootKeyID()), b.GetContext())
 	sb.WriteString(b.String())
 	sb.WriteString("\n--code--\n")
 	sb.WriteString(strings.Join(b.Code(), "\n"))
